@@ -534,6 +534,8 @@ pub struct Outcome {
     pub past_rejected: u64,
     pub adds_ok: u64,
     pub err: bool,
+    /// add_event(sim_time() - 1 ns) attempts on the paused runtime that were rejected
+    pub paused_past_rejected: u64,
 }
 
 pub enum Mode<'a> {
@@ -547,6 +549,8 @@ pub struct RunOpts {
     /// before the run: try add_event(start - 1 ns) (must panic) and a probe at exactly start (must be accepted)
     pub pre_run_probes: bool,
     pub default_queue: bool,
+    /// stepped runs: after every step try add_event(sim_time() - 1 ns), which must be rejected
+    pub paused_past_probes: bool,
 }
 
 pub fn real_run(prog: &Program, mode: Mode<'_>, opts: &RunOpts) -> Outcome {
@@ -613,6 +617,18 @@ pub fn real_run(prog: &Program, mode: Mode<'_>, opts: &RunOpts) -> Outcome {
                                     "ext-add-rejected",
                                     format!("paused at {now} ns: add_event({time_ns} ns) panicked: {}", vcommon::panic_message(&p)),
                                 );
+                            }
+                        }
+                    }
+                    if opts.paused_past_probes && !matches!(s, Step::Ext { .. }) {
+                        let now = ns_of(rt.sim_time());
+                        if now > 0 {
+                            let t = now - 1;
+                            let r = catch_unwind(AssertUnwindSafe(|| rt.add_event(Ev { id: usize::MAX, sched_ns: t, ghost: true }, st(t))));
+                            if r.is_ok() {
+                                problem(&mut rt, "past-add-accepted", format!("paused, sim_time() = {now} ns: add_event({t} ns) was accepted"));
+                            } else {
+                                out.paused_past_rejected += 1;
                             }
                         }
                     }
